@@ -176,6 +176,44 @@ def gen_setter_trace(rng, tier):
     return {"kind": "buffer", "n": n, "sr": sr, "ev": ev, "fmt": [sw, ch]}
 
 
+def big_trace(rng, kind, tmpdir):
+    """One file source holding more than two million samples, read in chunks larger than 2^20 samples / 1 MiB: size thresholds
+    of internal buffers are out of reach of small inputs whatever the call sequence."""
+    import numpy as np
+    from auditok import io as aio
+    sw, ch, sr = 2, rng.choice([1, 2, 3]), 16000
+    n = (1 << 21) + rng.randint(1000, 90000)
+    arr = (np.arange(n * ch, dtype=np.int64) * 7919 % 65521 - 30000).astype("<i2")
+    data = arr.tobytes()
+    bps = sw * ch
+    path = os.path.join(tmpdir, "big." + ("raw" if kind == "raw" else "wav"))
+    if kind == "raw":
+        with open(path, "wb") as f:
+            f.write(data)
+        src = aio.get_audio_source(path, sampling_rate=sr, sample_width=sw, channels=ch, large_file=True)
+    else:
+        import wave
+        with wave.open(path, "wb") as w:
+            w.setframerate(sr); w.setsampwidth(sw); w.setnchannels(ch); w.writeframes(data)
+        src = aio.get_audio_source(path, large_file=True)
+    ev = []
+    pos = 0
+    src.open()
+    ev.append({"op": "open", "arg": 0, "k": "ok", "ids": [], "v": 0})
+    for k in (rng.randint(1, 5000), (1 << 20) + rng.randint(1, 50000), rng.randint(1, 3), NONE):
+        got = src.read(None if k == NONE else k)
+        if got is None:
+            ev.append({"op": "bigread", "arg": k, "k": "none", "ids": [], "v": 0, "first": 0, "len": 0, "match": True})
+            continue
+        m = len(got) // bps
+        ev.append({"op": "bigread", "arg": k, "k": "blk" if len(got) % bps == 0 else "ragged", "ids": [], "v": 0, "first": pos + 1, "len": m,
+                   "match": got == data[pos * bps:pos * bps + len(got)]})
+        pos += m
+    src.close()
+    os.remove(path)
+    return {"kind": kind, "n": n, "sr": sr, "ev": ev, "fmt": [sw, ch]}
+
+
 def gen_trace(rng, tier, tmpdir):
     kind = rng.choice(["buffer", "buffer", "raw", "wav", "stdin"])
     sw, ch = rng.choice(FORMATS)
@@ -276,14 +314,22 @@ def check(prop, tier, replay=None):
     t0 = time.time()
     traces = [gen_trace(rng, tier, tmpdir) for _ in range(400 if tier == "quick" else 30000)]
     traces += [gen_setter_trace(rng, tier) for _ in range(60 if tier == "quick" else 2000)]
+    traces += [big_trace(rng, k_, tmpdir) for k_ in (("raw", "wav") if tier == "quick" else ("raw", "wav", "raw", "wav", "raw", "wav"))]
     tcfg = ('CONSTANTS MaxN = 0 RateSet = {} KindSet = {}\nSPECIFICATION TSpec\nCONSTRAINT Mon\nPOSTCONDITION Post\nCHECK_DEADLOCK FALSE\n')
+    for tr_ in traces:
+        for x_ in tr_["ev"]:
+            x_.setdefault("first", 0)
+            x_.setdefault("len", 0)
+            x_.setdefault("match", True)
     rows, st = judge("SourceTrace", tcfg, traces, wd, "st", strip=lambda x: {k: x[k] for k in ("kind", "n", "sr", "ev")},
-                     weight=lambda x: len(x["ev"]) + sum(len(e["ids"]) for e in x["ev"]) // 10)
+                     weight=lambda x: len(x["ev"]) + sum(len(e["ids"]) for e in x["ev"]) // 10 + (4000 if x["n"] > 1000000 else 0))
     V.cov["states"] += st
     for tr, row in zip(traces, rows):
         if row[2] != row[3] or row[4]:
             i = row[2] - 1
             e = tr["ev"][i] if i < len(tr["ev"]) else None
+            for x_ in tr["ev"]:
+                x_.setdefault("first", 0); x_.setdefault("len", 0); x_.setdefault("match", True)
             V.violation({"kind": tr["kind"], "n": tr["n"], "ops": [[x["op"], x["arg"]] for x in tr["ev"][:i + 1]]},
                         f"{tr['kind']} source n={tr['n']} sr={tr['sr']} fmt={tr['fmt']}: call #{i} {e} is not what the specification allows "
                         f"after {[(x['op'], x['arg']) for x in tr['ev'][max(0, i - 4):i]]} (C11 monitor failed: {bool(row[4])})",
